@@ -82,6 +82,9 @@ func guarded(f func()) (verdict, detail string) {
 // ---- well-formedness oracle -------------------------------------------------
 
 var rePhyHeader = regexp.MustCompile(`^[ \t\r\n]*([0-9]+)[ \t]+([0-9]+)[ \t]*\r?\n`)
+
+// the other shape of a Nexus header: a TAXA block declaring the taxa, a CHARACTERS / DATA block with nchar only
+var reNexTaxa = regexp.MustCompile(`(?is)begin\s+taxa;\s*dimensions\s+ntax=([0-9]+);\s*taxlabels\s+([^;]*);\s*end;\s*begin\s+(?:characters|data);\s*dimensions\s+nchar=([0-9]+);`)
 var reNexDim = regexp.MustCompile(`(?i)(?:^|[\s;])begin[ \t]+data;[ \t]*\n[ \t]*dimensions[ \t]+ntax=([0-9]+)[ \t]+nchar=([0-9]+);`)
 
 func mayExit(format string, in []byte) bool {
@@ -176,6 +179,19 @@ func wellFormed(c *mon.Case, tag string, f fmtio.Format, in []byte, o popt, al a
 			}
 		}
 	}
+	if f.Code == align.FORMAT_NEXUS && !bytes.Contains(in, []byte("[")) {
+		low := bytes.ToLower(in)
+		if mt := reNexTaxa.FindAllSubmatch(in, -1); len(mt) == 1 && bytes.Count(low, []byte("ntax")) == 1 && bytes.Count(low, []byte("nchar")) == 1 && bytes.Count(low, []byte("taxlabels")) == 1 && bytes.Count(low, []byte("matrix")) == 1 {
+			hn, _ := strconv.Atoi(string(mt[0][1]))
+			hl, _ := strconv.Atoi(string(mt[0][3]))
+			if len(strings.Fields(string(mt[0][2]))) == hn { // a self-consistent TAXA block
+				c.Count("nexus:taxa-block-header-compared")
+				if L != hl || n > hn || (o.policy == align.IGNORE_NONE && n != hn) {
+					fail("success-contradicts-header", "the TAXA block declares ntax=%d (and that many labels), nchar=%d; result is %d x %d", hn, hl, n, L)
+				}
+			}
+		}
+	}
 	c.Count("accepted:" + f.Name)
 }
 
@@ -205,6 +221,8 @@ func parseOne(c *mon.Case, tag string, f fmtio.Format, in []byte, o popt) (accep
 var handWritten = map[string][]string{
 	"nexus": {
 		"#NEXUS\n[a comment]\nBEGIN TAXA;\n DIMENSIONS NTAX=3;\n TAXLABELS s1 s2 s3;\nEND;\nBEGIN CHARACTERS;\n DIMENSIONS NCHAR=6;\n FORMAT DATATYPE=dna MISSING=? GAP=- MATCHCHAR=.;\n MATRIX\n s1 ACGTAC\n s2 AC.T-C [inline]\n s3 ??GTAC\n ;\nEND;\n",
+		"#NEXUS\nBEGIN TAXA;\n DIMENSIONS NTAX=4;\n TAXLABELS s1 s2 s3 s4;\nEND;\nBEGIN CHARACTERS;\n DIMENSIONS NCHAR=6;\n FORMAT DATATYPE=dna MISSING=? GAP=-;\n MATRIX\n s1 ACGTAC\n s2 ACTT-C\n s3 ??GTAC\n s4 ACGTAA\n ;\nEND;\n",
+		"#NEXUS\nbegin taxa;\ndimensions ntax=3;\ntaxlabels a b c;\nend;\nbegin data;\ndimensions nchar=4;\nformat datatype=protein;\nmatrix\na ARND\nb QEGH\nc ILKM\n;\nend;\n",
 		"#NEXUS\nbegin data;\ndimensions ntax=2 nchar=8;\nformat datatype=protein interleave;\nmatrix\na ARND\nb QEGH\n\na CQEG\nb ILKM\n;\nend;\nbegin trees;\ntree t=(a,b);\nend;\n",
 	},
 	"stockholm": {
